@@ -491,6 +491,21 @@ func listGoFiles(magePath, goCmd, tag string, envStr []string) ([]string, error)
 
 	bctx := build.Default
 	bctx.BuildTags = []string{tag}
+	// a generated main file left behind by an interrupted run is never a
+	// magefile, whatever state it is in, so don't let go/build read it.
+	bctx.ReadDir = func(dir string) ([]os.FileInfo, error) {
+		fis, err := ioutil.ReadDir(dir)
+		if err != nil {
+			return nil, err
+		}
+		out := fis[:0]
+		for _, fi := range fis {
+			if fi.Name() != mainfile {
+				out = append(out, fi)
+			}
+		}
+		return out, nil
+	}
 
 	if _, ok := env["GOOS"]; ok {
 		bctx.GOOS = env["GOOS"]
